@@ -734,13 +734,13 @@ Print Assumptions C02_bridge_settings_partial.
     CORRECTED counter points at ([sink_index], C05: the highest positional when there is a [last(true)] one); a positional taking
     several values takes all that remain.  A [trailing_var_arg] run: the first value is an ordinary value token, all later tokens are
     raw values of the same occurrence; it denotes what [--] followed by the same values denotes. *)
-Theorem C02_unparse_after_escape_x : forall c, convx c = true ->
+Theorem C02_unparse_after_escape_x : forall c, convx c = true -> low_index_mults_any c = false ->
   forall (vs : list bytes) pos pst vaf st, wfx_trail c pos vs = true -> pend_inv c PSValuesDone st ->
   parse_loop c vs (mkL pst pos vaf true) st = (do s' <- trailx_apply c pos vs st; ROk (LDone s')).
 Proof. exact loop_trail_x. Qed.
 Print Assumptions C02_unparse_after_escape_x.
 
-Theorem C02_unparse_tva_run : forall c, convx c = true ->
+Theorem C02_unparse_tva_run : forall c, convx c = true -> low_index_mults_any c = false ->
   forall (vs : list bytes) pos vaf st, wfx_tva c pos vs = true -> pend_inv c PSValuesDone st ->
   parse_loop c vs (mkL PSValuesDone pos vaf false) st = (do s' <- trailx_apply c pos vs st; ROk (LDone s')).
 Proof. exact loop_tva. Qed.
@@ -834,8 +834,9 @@ Print Assumptions C02_unparse_tva_nonvacuous.
     [user_conventional c0]: not yet built; none of [subcommand_precedence_over_arg], [allow_missing_positional], command-level
     [allow_hyphen_values] / [allow_negative_numbers] / [trailing_var_arg]; every declared argument [conv_arg]; no explicit
     positional index; only the LAST declared positional takes several values / appends (judged after [Arg::_build] has filled in
-    action and value range).  [user_conventionalx]: the same for the lifted class (declared options free of [last]/[trailing_var_arg],
-    declared positionals free of hyphen / negative-number values).
+    action and value range).  [user_conventionalx], for the lifted class: not yet built; no [subcommand_precedence_over_arg], no
+    command-level [allow_hyphen_values] / [allow_negative_numbers] / [trailing_var_arg]; no explicit positional index; declared
+    options free of [last]/[trailing_var_arg] (everything else -- positionals included -- is free).
     The generated [--help] / [--version] flags, [Arg::_build], the index assignment, the deprecated-settings push and the
     [Built] mark are all covered; the low-index conjunct is DERIVED ([C02_bridge_low_index]: the k-th declared positional gets
     index k, the number of positional keys is the number of positionals). *)
@@ -882,7 +883,7 @@ Theorem C02_bridge_nonvacuous :
   user_conventionalx XEx.c0 = true /\ user_conventional XEx.c0 = false /\
   wfy_body (build_self (with_bin XEx.c0 XEx.bin)) (of_inv XEx.xinv) = true /\
   user_conventionalx YEx.t0 = true /\ wfy_body (build_self (with_bin YEx.t0 YEx.bin)) YEx.tinv = true /\
-  user_conventionalx YEx.c0 = false /\ convx YEx.c = true.
+  user_conventionalx YEx.c0 = true /\ convx YEx.c = true.
 Proof. exact user_examples. Qed.
 Print Assumptions C02_bridge_nonvacuous.
 
